@@ -24,13 +24,13 @@ deriving Repr
 
 /-- all complete 16-byte blocks of a byte string, in order; a trailing partial block is dropped -/
 def blocks16 (s : Bytes) : List Bytes :=
-  if h : 16 ≤ s.length then s.take 16 :: blocks16 (s.drop 16) else []
+  if _h : 16 ≤ s.length then s.take 16 :: blocks16 (s.drop 16) else []
 termination_by s.length
 decreasing_by simp [List.length_drop]; omega
 
 /-- what is left in the buffer after all complete blocks were handed out -/
 def rest16 (s : Bytes) : Bytes :=
-  if h : 16 ≤ s.length then rest16 (s.drop 16) else s
+  if _h : 16 ≤ s.length then rest16 (s.drop 16) else s
 termination_by s.length
 decreasing_by simp [List.length_drop]; omega
 
